@@ -28,6 +28,7 @@ def wants_x(c):
 
 encode = iomodel.encode
 render = iomodel.render
+canon = iomodel.canon
 
 
 def file_text(c):
@@ -47,6 +48,8 @@ def write_bytes(text, enc, newline):
 
 
 def impl(c):
+    if c["op"] in iomodel.MODEL_OPS:
+        return iomodel.impl(c)
     import io
     import os
     from praatio import textgrid as ptextgrid
@@ -73,6 +76,8 @@ def renamed(names):
 
 
 def oracle(c, r):
+    if c["op"] in iomodel.MODEL_OPS:
+        return None          # model-correspondence case: compared with the Lean model only
     d = c["data"]
     sig = {"op": "open", "layout": c["layout"]}
     # the independent writer and the independent reader agree on this file (guards the oracle itself)
@@ -116,6 +121,8 @@ def oracle(c, r):
 
 
 def tags(c, r):
+    if c["op"] in iomodel.MODEL_OPS:
+        return ["model:" + c["op"]] + (["err:" + r[1]] if r[0] == "err" else [])
     out = ["layout:" + c["layout"], "enc:" + c["enc"], "nl:" + ("crlf" if c["newline"] == "\r\n" else "lf"), "style:" + c["style"],
            "iei:%s" % c["iei"], "dup:" + c["dup"]]
     if r["open"][0] == "err":
@@ -124,6 +131,8 @@ def tags(c, r):
 
 
 def nontrivial(c, r):
+    if c["op"] in iomodel.MODEL_OPS:
+        return True
     return any(t["es"] for t in c["data"]["tiers"])
 
 
@@ -155,6 +164,39 @@ def corpus():
 
 
 def gen(rnd, tier):
+    for c in gen_main(rnd, tier):
+        yield c
+        yield from derived(c, rnd)
+
+
+UNIT_ALPHABET = ["xmin", "xmax", "text", "name", "number", "mark", " ", "=", "\"", "\"\"", "\n", "\t", "\x1c", "1", "2.5", "-", "e", "E", "+", "e-05", ".", "a",
+                 "item", "intervals", "[", " [", "\u0663", "\r", "\u3000"]
+
+
+def unit_cases(rnd, n):
+    """the hand-written matchers of the long-format reader model against `re` itself, and the short reader's row
+    fetchers against the real helpers, on adversarial strings"""
+    for _ in range(n):
+        s = "".join(rnd.choice(UNIT_ALPHABET) for _ in range(rnd.randint(0, 14)))
+        k = rnd.random()
+        if k < 0.3:
+            yield {"op": "u_num", "s": s, "kw": rnd.choice(["xmin", "xmax", "number"]), "neg": rnd.random() < 0.5, "ascii": True}
+        elif k < 0.6:
+            yield {"op": "u_text", "s": s, "kw": rnd.choice(["text", "name", "mark"]), "dotall": rnd.random() < 0.6}
+        elif k < 0.75:
+            yield {"op": "u_split", "s": s, "kw": rnd.choice(["item", "intervals"])}
+        else:
+            t = "".join(rnd.choice(["\"", "\"\"", "a", " ", "\n", "b\"", "\"\"\"", "\t"]) for _ in range(rnd.randint(0, 10)))
+            yield {"op": rnd.choice(["u_fetchtext", "u_fetchrow"]), "s": t, "i": rnd.randint(0, max(0, len(t))), "anyerr": False}
+
+
+def derived(c, rnd):
+    if c["layout"] in ("long", "short", "elan"):
+        yield {"op": "parse", "text": file_text(c), "iei": c["iei"]}
+    yield from unit_cases(rnd, 2)
+
+
+def gen_main(rnd, tier):
     n = 30000 if tier == "thorough" else 2500
     for i in range(n):
         style = rnd.choice(["plain", "plain", "int", "exp", "float"])
